@@ -91,6 +91,40 @@ def _none_variants(ctx, A, B):
         k_ = rng.choice(common)
         A["bind"][k_] = B["bind"][k_] = None
         changed = True
+    # (c) one signature default, (d) one binding made at ANY nesting level becomes None - wherever that very value occurs
+    # in either build (a None default / a None binding is a fallback value like any other)
+    def progs(P):
+        yield P
+        for ns in P["nodes"]:
+            if ns["k"] == "sub":
+                yield from progs(ns["prog"])
+
+    def defaults(P):
+        return {q["d"] for X in progs(P) for ns in X["nodes"] if ns["k"] != "sub" for q in ns.get("params", []) if isinstance(q.get("d"), str)}
+
+    def bound_vals(P):
+        return {v for X in progs(P) for v in (X.get("bind") or {}).values() if isinstance(v, str)}
+
+    dv = sorted(defaults(A) & defaults(B))
+    if dv and rng.random() < 0.6:
+        v_ = rng.choice(dv)
+        for P in (A, B):
+            for X in progs(P):
+                for ns in X["nodes"]:
+                    if ns["k"] != "sub":
+                        for q in ns.get("params", []):
+                            if q.get("d") == v_:
+                                q["d"] = None
+        changed = True
+    bv = sorted(bound_vals(A) & bound_vals(B))
+    if bv and rng.random() < 0.6:
+        v_ = rng.choice(bv)
+        for P in (A, B):
+            for X in progs(P):
+                for k2, v2 in list((X.get("bind") or {}).items()):
+                    if v2 == v_:
+                        X["bind"][k2] = None
+        changed = True
     topB = {ns["name"] for ns in B["nodes"] if ns["k"] == "fn" and len(ns.get("outs", [])) == 1 and not ns.get("gen") and not ns.get("beh")}
     cand = [ns["name"] for ns in A["nodes"] if ns["k"] == "fn" and ns["name"] in topB and len(ns.get("outs", [])) == 1 and not ns.get("gen") and not ns.get("beh")]
     if cand and rng.random() < 0.7:
